@@ -88,6 +88,25 @@ def run_workers(cases, tag, per=1, timeout=2400):
 WORKER_NOTES = []
 
 
+def lost_vertex_contact(c):
+    """input-class predicate of the lost-vertex defect (known finding F26 of C15) at body level: some contact
+    reported by find_contact_surface, in either order of the bodies, has an area different from the exact
+    rational intersection polygon AND that polygon has a vertex on >= 3 face planes (hydrogen.concurrent_lines).
+    Evaluated only when a 5 % comparison failed."""
+    cases = [dict(kind="bodies", cls="f26_probe", b1=c["b1"], b2=c["b2"], use_aabb_trees=False, all_pairs=False, max_contacts=10 ** 6),
+             dict(kind="bodies", cls="f26_probe", b1=c["b2"], b2=c["b1"], use_aabb_trees=False, all_pairs=False, max_contacts=10 ** 6)]
+    res, _ = hg.run_cases(cm, PID, "c15", cases, "f26probe", per=1, timeout=2400)
+    for r in res:
+        if r is None or "exc" in r:
+            continue
+        for ct in r["contacts"]:
+            L = k15.scale_of(ct["t1"], ct["t2"])
+            ex = hg.exact_area(hg.exact_polygon(ct["t1"], ct["t2"], ct["plane"]), ct["plane"])
+            if abs(ex - ct["area"]) > 1e-9 * L * L and hg.concurrent_lines(ct["t1"], ct["t2"], ct["plane"]):
+                return True
+    return False
+
+
 def judge(R, c, r, stats):
     """property verdicts for one case; returns True if the case was non-trivial (a contact)"""
     if r is None or "exc" in r:
@@ -108,10 +127,15 @@ def judge(R, c, r, stats):
     has_f17 = any(k.get("id") == "F17" for k in R.known)
 
     def fail(what):
+        lost = [k for k in R.known if "concurrent_lines" in k.get("match", "")]
         if noise_plane and has_f17:
             kf = [k for k in R.known if k.get("id") == "F17"][0]
             stats["f17_inputs"] += 1
             R.known_finding("F17", kf.get("what", what)[:300])
+        elif lost and lost_vertex_contact(c):
+            # only if the lead records the lost-vertex defect (F26 of C15) for C16 as well
+            stats["lost_vertex_inputs"] = stats.get("lost_vertex_inputs", 0) + 1
+            R.known_finding(lost[0]["id"], lost[0].get("what", what)[:300])
         else:
             R.failure(what + f" (force magnitude {fm:.6g}, worst plane conditioning {min(ratios) if ratios else None})", c,
                       site="contact_forces")
